@@ -683,9 +683,11 @@ def run(repo, chk, tier):
     from ..cacheown import check_persistent_state
 
     clause_ragged(repo, chk)
-    from .c06_formula import check_nll_formula
+    from .c06_formula import check_batch_sum, check_cache_atomic, check_nll_formula
 
     check_nll_formula(repo, chk)
+    check_batch_sum(repo, chk)
+    check_cache_atomic(repo, chk, ["tf_pwa/model/"], min_sites=3)
 
     check_persistent_state(repo, chk, ["tf_pwa/model/"])
     from ..cacheown import check_mutable_defaults
